@@ -712,8 +712,8 @@ pub fn run(run: &mut Run) {
         }
     });
     let (n, sh) = match run.tier {
-        crate::engine::Tier::Quick => (40_000u32, 16usize),
-        crate::engine::Tier::Thorough => (1_500_000, 64),
+        crate::engine::Tier::Quick => (300_000u32, 32usize),
+        crate::engine::Tier::Thorough => (15_000_000, 256),
     };
     let seed = run.seed_for("random", 0);
     run.par(sh, |s, obs| {
